@@ -43,9 +43,8 @@ def tasks_async(ctx):
             t.append((H.Opts(sp, loop="real", vis=vis), 0, 2))
     if ctx.thorough:
         for sp in SMALL:
-            for loop in ("mirror", "real"):
-                t.append((H.Opts(sp, loop=loop, vis=(0, 1, INF), multi=True), 0, 2))
-        for sp in MEDIUM:
+            t.append((H.Opts(sp, loop="real", vis=(0, 1, INF), multi=True), 0, 2))
+        for sp in MEDIUM_QUICK:
             t.append((H.Opts(sp, loop="real", vis=(0, INF), fail=1), 0, 3))
         for sp in MEDIUM_QUICK:
             t.append((H.Opts(sp, loop="real", vis=(0, INF), multi=True), 0, 3))
@@ -158,7 +157,7 @@ def run(ctx):
             bound=(
                 f"{SMALL} (1-4 jobs): every completion order x per-job lock visibility {{seen at next observation, never seen}}, without failure (mirror and real loop) and with <= 1 failing job (" + ("both loops" if ctx.thorough else f"real loop, {FAIL1_QUICK}") + "); "
                 f"{MEDIUM if ctx.thorough else MEDIUM_QUICK} (4-6 jobs): every order x per-job visibility (real loop; mirror: " + ("per-job" if ctx.thorough else "all seen") + f"); {LARGE if ctx.thorough else LARGE_QUICK} (5-10 jobs): every order with visibility all-seen / none-seen"
-                + (f"; thorough adds several completions per observation and visibility delay 1 for the small set, one failing job for the medium set, several completions per observation for {MEDIUM_QUICK}, the mirror loop for {LARGE_QUICK}" if ctx.thorough else "")
+                + (f"; thorough adds several completions per observation and visibility delay 1 for the small set (real loop), one failing job and several completions per observation for {MEDIUM_QUICK}, the mirror loop for {LARGE_QUICK}" if ctx.thorough else "")
             ),
             rule="one case = one history (workflow, loop, script choices); non-trivial = at least two jobs were started",
             exhaustive=True,
